@@ -146,6 +146,11 @@ func refParseTraceState(h string) (ms []Member, ok bool) {
 
 func joinMembers(ms []Member) string {
 	var sb strings.Builder
+	n := 0
+	for _, m := range ms {
+		n += len(m.K) + len(m.V) + 2
+	}
+	sb.Grow(n)
 	for i, m := range ms {
 		if i > 0 {
 			sb.WriteByte(',')
